@@ -147,18 +147,11 @@ Theorem C04_frame_pops_what_callers_push_partial : forall env ps,
 Proof. exact params_size_fixed_ok. Qed.
 Print Assumptions C04_frame_pops_what_callers_push_partial.
 
-Definition d14_env : renv := [([114], [([97], TBuiltin 1); ([98], TBuiltin 1)])].   (* TYPE r: a, b AS INTEGER *)
-Definition d14_params : decls := [([112], TRecord [114])].                           (* SUB f(p AS r) *)
-
+(* witness (LayoutProofs.d14_env / d14_params): TYPE r: a, b AS INTEGER / SUB f(p AS r) *)
 Theorem C04_frame_pops_what_callers_push_refuted : exists env ps,
   wf_env env /\ wf_decls ps /\
   params_size env ps <> Some (params_size_fixed ps).
-Proof.
-  exists d14_env, d14_params. repeat split.
-  - repeat constructor.
-  - repeat constructor.
-  - vm_compute. discriminate.
-Qed.
+Proof. exact frame_pops_what_callers_push_refuted. Qed.
 Print Assumptions C04_frame_pops_what_callers_push_refuted.
 
 (* ---------- machine: assigning one location changes that one only ---------- *)
@@ -256,15 +249,9 @@ Theorem C04_readidx_unset_writes_cell_idx : forall m l ty v i s g sg,
 Proof. exact readidx_unset_wrong_cell. Qed.
 Print Assumptions C04_readidx_unset_writes_cell_idx.
 
-(* witness: frame [x% = 7; y$ = "hi"; v.a unset; v.b unset] and `readidxl% 2, 1`
-   (PRINT v.b): cell var + idx = 3 is read, the default is written to cell
-   idx = 1, which is the live variable y$ *)
-Definition d15_state : st :=
-  set_cur (set_heap (init_state (mkModule [] [] [] 0 None) (mkScript [] [] [] []))
-             [mkSeg [] SGlobals;
-              mkSeg [Some (CI 7); Some (CStr [104; 105]); None; None] (SFrame None 0 0 4)])
-          (Some 1).
-
+(* witness (LayoutProofs.d15_state): frame [x% = 7; y$ = "hi"; v.a unset; v.b unset]
+   and `readidxl% 2, 1` (PRINT v.b): cell var + idx = 3 is read, the default is
+   written to cell idx = 1, which is the live variable y$ *)
 Theorem C04_readidx_changes_other_cell_refuted :
   exists m s s' g i j,
     exec m (IReadidx true 1 2 1) s = R tt s' /\
@@ -273,12 +260,7 @@ Theorem C04_readidx_changes_other_cell_refuted :
     cellat (heap s) g j = Some (Some (CStr [104; 105])) /\ (* a live variable elsewhere *)
     cellat (heap s') g j = Some (Some (CI 0)) /\          (* ... has been overwritten *)
     cellat (heap s') g i = Some None.                     (* ... and the cell read is still unset *)
-Proof.
-  exists (mkModule [] [] [] 0 None), d15_state.
-  eexists. exists 1%nat, 3%nat, 1%nat.
-  split; [vm_compute; reflexivity|].
-  repeat split; try discriminate; vm_compute; reflexivity.
-Qed.
+Proof. exact readidx_changes_other_cell_refuted. Qed.
 Print Assumptions C04_readidx_changes_other_cell_refuted.
 
 (* corrected instruction (write_var(scope, var + idx, value)): pure on a set
